@@ -3,7 +3,52 @@
    real bytes when short, otherwise a tag (length + digest) - the model treats them opaquely.
    The codec is the table of what the reference decoders (stdlib gzip/flate, brotli, zstd)
    made of the served bytes, supplied by the harness for exactly the calls the model makes. *)
-From ReqV Require Export Lib.Bytes Model.Decode.
+From ReqV Require Export Lib.Bytes Model.Decode Model.DecodeSession.
+
+(* How a sequence case writes a byte string: literally, or - the payloads of sequences are produced
+   by a fixed generator that exists on both sides (harness/c14/seq.go genByte) - as a slice of a
+   generated stream.  The harness only uses `Gen` for a string that IS that slice (checked there byte
+   for byte), so expanding the description gives back exactly the bytes observed; parsing megabytes
+   of literals is what the Coq side cannot afford. *)
+Inductive seg := Lit (b : bytes) | Gen (seed len : N).
+
+(* The generator (mirrored by harness/c14/seq.go genPayload): "words" of seven lower-case letters and a
+   space.  With w = k / 8, c = k mod 8 the regular part of letter k is
+     (seed * (w mod 61 + 1) + c * (seed mod 5 + 1) + (w / 61) * (seed mod 25 + 1)) mod 26;
+   streams with seed mod 3 = 1 add a 4-bit xorshift16 value to every letter, seed mod 3 = 2 to every
+   other letter (so the streams compress between 2:1 and 50:1).  Computed incrementally with small
+   additions and shifts - no division per byte. *)
+Definition red26 (x : N) : N :=
+  (if x <? 26 then x else if x <? 52 then x - 26 else if x <? 78 then x - 52 else x - 78)%N.
+
+Definition xs16 (x : N) : N :=
+  let x1 := N.land (N.lxor x (N.shiftl x 7)) 65535 in
+  let x2 := N.lxor x1 (N.shiftr x1 9) in
+  N.land (N.lxor x2 (N.shiftl x2 8)) 65535.
+
+Fixpoint gen_go (mode s26 d5 d25 c e j a q x : N) (n : nat) : bytes :=
+  match n with
+  | O => []
+  | S n' =>
+      let x' := xs16 x in
+      if (c =? 7)%N then
+        x20 :: (if (j =? 60)%N then gen_go mode s26 d5 d25 0 0 0 s26 (red26 (q + d25)) x' n'
+                else gen_go mode s26 d5 d25 0 0 (j + 1) (red26 (a + s26)) q x' n')%N
+      else
+        let noise := (if (mode =? 1) || ((mode =? 2) && N.odd c) then N.land x' 15 else 0)%N in
+        byte_of_N_total (97 + red26 (red26 (a + e + q) + noise))%N
+          :: gen_go mode s26 d5 d25 (c + 1)%N (e + d5)%N j a q x' n'
+  end.
+
+Definition gen_stream (seed : N) (n : nat) : bytes :=
+  gen_go (seed mod 3)%N (seed mod 26)%N (seed mod 5 + 1)%N (seed mod 25 + 1)%N 0 0 0 (seed mod 26)%N 0
+         (seed mod 65535 + 1)%N n.
+
+Definition seg_bytes (x : seg) : bytes :=
+  match x with
+  | Lit b => b
+  | Gen seed len => gen_stream seed (N.to_nat len)
+  end.
 
 Inductive c14_case :=
 | C14Case
@@ -18,7 +63,22 @@ Inductive c14_case :=
     (o_seen_ae : bytes)                  (* Accept-Encoding the origin received *)
     (o_ce o_clh : list bytes) (o_cl : Z) (o_unc : bool)
     (o_body : bytes) (o_err : bool)      (* blob of delivered bytes; read error other than EOF *)
-    (o_sticky : bool).                   (* two more reads after the terminal error return 0 bytes + an error *)
+    (o_sticky : bool)                    (* two more reads after the terminal error return 0 bytes + an error *)
+(* a SEQUENCE of exchanges on one client with several bodies alive at the same time: the responses
+   (bodies as real bytes, not tags: the reads are partial), the interleaved operations the harness
+   performed on them (ReadFull of scripted sizes / Close, addressed by response index), and per
+   operation the number of bytes delivered and the status class (0 nil, 1 io.EOF, 2 other error) *)
+| C14Seq (pool : list (list seg)) (resps : list c14_resp) (ops : list (nat * option N)) (o_ops : list (N * N))
+    (* pool: the distinct byte strings of the case (bodies are referred to by index, each is written
+       once, see `seg`); ops: (response index, Some n = ReadFull n | None = Close), sizes in N (a nat literal is
+       unary) *)
+with c14_resp :=
+| C14Resp
+    (st : stack) (disable auto : bool) (ae range : bytes) (head ended : bool)
+    (ce clh : list bytes) (cl : Z) (wire : nat)               (* served body: pool index *)
+    (table : list (enc * (nat * bool)))                       (* reference decoder: output (pool index), failed? *)
+    (o_seen_ae : bytes) (o_ce o_clh : list bytes) (o_cl : Z) (o_unc : bool)
+    (o_body : nat).                      (* every byte delivered to this response's caller, concatenated (pool index) *)
 
 Definition table_codec (wire : bytes) (t : list (enc * (bytes * bool))) : codec :=
   fun e w =>
@@ -49,8 +109,84 @@ Definition table_bound (wire : bytes) (t : list (enc * (bytes * bool))) : nat :=
 Definition is_error (e : option rerr) : bool :=
   match e with Some EOF => false | _ => true end.
 
+(* ---------- sequences ---------- *)
+
+Section Pool.
+Variable pool : list bytes.      (* expanded *)
+Definition pl (i : nat) : bytes := nth i pool [].
+
+Definition resp_wire (x : c14_resp) : bytes :=
+  match x with C14Resp _ _ _ _ _ _ _ _ _ _ wire _ _ _ _ _ _ _ => pl wire end.
+Definition resp_table (x : c14_resp) : list (enc * (bytes * bool)) :=
+  match x with C14Resp _ _ _ _ _ _ _ _ _ _ _ t _ _ _ _ _ _ =>
+    map (fun y => (fst y, (pl (fst (snd y)), snd (snd y)))) t end.
+Definition resp_obody (x : c14_resp) : bytes :=
+  match x with C14Resp _ _ _ _ _ _ _ _ _ _ _ _ _ _ _ _ _ b => pl b end.
+
+(* what RoundTrip returns for one response of a sequence: the same `respond` as in a single exchange *)
+Definition resp_model (x : c14_resp) : reqcfg * stack * resp :=
+  match x with
+  | C14Resp st disable auto ae range head ended ce clh cl wire _ _ _ _ _ _ _ =>
+      let cfg := {| q_disable := disable; q_ae := ae; q_range := range; q_head := head |} in
+      let r0 := {| r_ce := ce; r_clh := clh; r_other := []; r_cl := cl; r_unc := false;
+                   r_body := Raw (pl wire) |} in
+      (cfg, st, respond st cfg auto ended r0)
+  end.
+
+Definition resp_hdr_ok (x : c14_resp) : bool :=
+  match x with
+  | C14Resp _ _ _ _ _ _ _ _ _ _ _ _ o_seen_ae o_ce o_clh o_cl o_unc _ =>
+      let '(cfg, st, r1) := resp_model x in
+      bytes_eqb (sent_accept_encoding st cfg) o_seen_ae &&
+      list_eqb bytes_eqb (r_ce r1) o_ce &&
+      list_eqb bytes_eqb (r_clh r1) o_clh &&
+      (r_cl r1 =? o_cl)%Z &&
+      Bool.eqb (r_unc r1) o_unc
+  end.
+
+(* the reference decoders' answers for every served body of the sequence, keyed by the body *)
+Fixpoint seq_codec (l : list c14_resp) : codec :=
+  match l with
+  | [] => fun _ _ => {| s_data := []; s_end := ErrDecode |}
+  | x :: rest => fun e w =>
+      if bytes_eqb w (resp_wire x) then table_codec (resp_wire x) (resp_table x) e w
+      else seq_codec rest e w
+  end.
+
+Definition stat_class (s : ostat) : N :=
+  match s with
+  | StOk => 0
+  | StEnd EOF => 1
+  | StEnd _ => 2
+  | StClosed => 2
+  | StBadIndex => 9
+  end%N.
+
+Fixpoint bodies_ok (i : nat) (l : list c14_resp) (ops : list (nat * rop)) (res : list opres) : bool :=
+  match l with
+  | [] => true
+  | x :: rest =>
+      bytes_eqb (delivered_bytes (results_of i ops res)) (resp_obody x) && bodies_ok (S i) rest ops res
+  end.
+
+Definition rop_of (o : nat * option N) : nat * rop :=
+  (fst o, match snd o with Some n => OReadFull (N.to_nat n) | None => OClose end).
+
+Definition c14_seq_check (resps : list c14_resp) (ops0 : list (nat * option N)) (o_ops : list (N * N)) : bool :=
+  let ops := map rop_of ops0 in
+  let dec := seq_codec resps in
+  let bodies := map (fun x => r_body (snd (resp_model x))) resps in
+  let res := fst (sess_run dec ops (sess_open bodies)) in
+  forallb resp_hdr_ok resps &&
+  list_eqb (fun (r : opres) (o : N * N) =>
+              N.eqb (N.of_nat (length (fst r))) (fst o) && N.eqb (stat_class (snd r)) (snd o)) res o_ops &&
+  bodies_ok 0 resps ops res.
+End Pool.
+
 Definition c14_check (c : c14_case) : bool :=
   match c with
+  | C14Seq pool resps ops o_ops =>
+      c14_seq_check (map (fun l => concat (map seg_bytes l)) pool) resps ops o_ops
   | C14Case st disable auto ae range head ended ce clh cl wire table pat
             o_seen_ae o_ce o_clh o_cl o_unc o_body o_err o_sticky =>
       let cfg := {| q_disable := disable; q_ae := ae; q_range := range; q_head := head |} in
